@@ -418,6 +418,24 @@ __CPROVER_assigns(dimension_, g_clear_calls, g_exp_calls, g_exp_mask, g_exp_k, g
                  harness="int main(void) {\n  int in_k = nondet_int(); g_nroot = nondet_size(); dimension_ = nondet_int(); g_clear_calls = 0; g_exp_calls = 0; g_exp_mask = 0; g_exp_before_clear = 0; g_exp_bad_k = 0;\n  expansion(in_k);\n  __CPROVER_assert(0, \"VP_REACH\");\n  return 0;\n}\n",
                  desc="expansion(max_dim): a no-op for max_dim <= 1; otherwise the filtration cache is dropped before the first simplex is inserted, and exactly the vertices with children have their siblings expanded, all with max_dim - 1")]
 
+def extended_prologue_units():
+    """extend_filtration, everything before the scan over the vertices: the filtration cache is dropped before the tree is
+    touched, and the running minimum / maximum / largest vertex start at the identities of min / max."""
+    G = ("#include <math.h>\n#include <limits.h>\ntypedef double Filtration_value; typedef int Vertex_handle;\nunsigned g_clear_calls; double g_minval, g_maxval; int g_maxvert;\n"
+         "static void clear_filtration(void) { g_clear_calls++; }\n#define get_infinity() INFINITY\n")
+    fn = Fn(ST, r"Extended_filtration_data extend_filtration\(\)", "extend_prologue", """
+__CPROVER_requires(g_clear_calls == 0)
+__CPROVER_ensures(g_clear_calls == 1)
+__CPROVER_ensures(isinf(g_minval) && g_minval > 0 && isinf(g_maxval) && g_maxval < 0 && g_maxvert == INT_MIN)
+__CPROVER_assigns(g_clear_calls, g_minval, g_maxval, g_maxvert)
+""", piece={"kind": "slice", "first": r"(?<=\{)", "last": r"(?=for \(auto \w+ = root_\.members\(\)\.begin\(\))", "sig": "void extend_prologue(void)",
+            "epilogue": "g_minval = minval; g_maxval = maxval; g_maxvert = maxvert;"},
+            scopes=["Filtration_simplex_base_real"], subs=[(r"std::numeric_limits<Vertex_handle>::min\(\)", "INT_MIN")],
+            canary=(r"Filtration_value maxval = -get_infinity\(\);", "Filtration_value maxval = get_infinity();"))
+    return [Unit("extended.prologue", "C03", [fn], enforce="extend_prologue", globals_=G, inputs=[], replay=replay_by_native_search,
+                 harness="int main(void) {\n  g_clear_calls = 0;\n  extend_prologue();\n  __CPROVER_assert(0, \"VP_REACH\");\n  return 0;\n}\n",
+                 desc="extend_filtration, before the scan: the filtration cache is dropped first (the tree is about to be rewritten), and the running minimum, maximum and largest vertex start at +infinity, -infinity and the smallest vertex handle")]
+
 NATIVE_RESULTS = []
 
 
@@ -472,6 +490,7 @@ def units(tier):
     U += mfnd_units()
     U += reset_units()
     U += expansion_units()
+    U += extended_prologue_units()
     U += extended_units(tier)
     # K6: the cubical comparator (shared with C13)
     for u in c13.comparator_units():
